@@ -25,7 +25,7 @@ func (c02) Describe() engine.Info {
 		Rule: "same lock-step executions as C01, plus directed programs that run every opcode (conditional ones with all 16 flag nibbles, so both outcomes of every condition occur). Oracle: cycles between instruction boundaries = documented length of the reference SM83 (taken/not-taken from the flags at decision time); the repository's own cycle table is not consulted. " +
 			"Signature = (opcode, taken/not-taken or length, interrupt line rose mid-instruction).",
 		Assumptions: []string{
-			"the wake-up from HALT and the interrupt dispatch lengths are judged by C04/C05, not here",
+			"the idle period of HALT, the wake-up from it and the interrupt dispatch lengths are judged by C04/C05, not here (a HALT that does not idle is: class halt-no-idle)",
 			"instruction-stream fetch timing is not observable at cycle boundaries and not judged",
 		},
 		RequiredProbes: []string{"instructions", "cond_taken", "cond_not_taken"},
@@ -60,6 +60,62 @@ func (c02) Generate(r *engine.Rand, index int, tier string) *engine.Scenario {
 		sc.Cycles = uint64(len(g.code))*4 + 64
 		return sc
 	}
+	if index%3 == 1 {
+		// directed: every jump/call/return kind (both outcomes) directly followed by the tested
+		// instruction, so that no end-of-instruction state of one instruction can shorten or
+		// lengthen the next (memory operands of CB operations included)
+		sc.Class = "pairs"
+		g := &progGen{r: r, base: lsCodeWRAM}
+		g.emitStackSetup()
+		for i, n := 0, r.Range(6, 24); i < n; i++ {
+			// flags through the stack so that both outcomes of the condition occur
+			g.emitStackSetup()
+			g.emit16(0x01, uint16(r.Intn(16))<<4|uint16(r.Byte())<<8)
+			g.emit(0xc5, 0xf1)
+			prev := pairPrev[(index/3+i)%len(pairPrev)]
+			for {
+				var ok bool
+				switch r.Intn(3) {
+				case 0:
+					ok = g.emitPair(prev, r.Byte()&0xf8|6, true) // CB operation on (HL)
+				case 1:
+					ok = g.emitPair(prev, r.Byte(), true)
+				default:
+					ok = g.emitPair(prev, engine.Pick(r, lockstepOps), false)
+				}
+				if ok {
+					break
+				}
+			}
+		}
+		g.finish()
+		lsScenario(sc, r, g)
+		sc.SetP("marks", int64(len(g.marks)))
+		sc.Cycles = uint64(len(g.code))*4 + 64
+		return sc
+	}
+	if index%12 == 2 {
+		// HALT that does not idle (master enable clear, an enabled request already pending)
+		// occupies one machine cycle like any other single-byte instruction
+		sc.Class = "halt-no-idle"
+		g := &progGen{r: r, base: lsCodeWRAM}
+		g.emitStackSetup()
+		for i, n := 0, r.Range(1, 4); i < n; i++ {
+			for j, k := 0, r.Intn(3); j < k; j++ {
+				g.emit(engine.Pick(r, c05SafeOps))
+			}
+			g.emit(0x76)
+			g.emit(engine.Pick(r, c05SafeOps))
+		}
+		g.emit(0x00, 0x00)
+		g.finish()
+		lsScenario(sc, r, g)
+		line := uint(r.Intn(5))
+		sc.SetP("ie", int64(1<<line)|int64(r.Byte()&0xe0))
+		sc.SetP("if", int64(1<<line))
+		sc.Cycles = uint64(len(g.code))*4 + 64
+		return sc
+	}
 	sc.Class = "program"
 	genCPUProgram(r, sc, r.Range(1, 40))
 	return sc
@@ -68,6 +124,11 @@ func (c02) Generate(r *engine.Rand, index int, tier string) *engine.Scenario {
 var c02Focus = map[string]bool{"cycles": true, "stuck": true}
 
 func (c02) Execute(sc *engine.Scenario) *engine.Result {
-	res := executeCPU("C02", sc, c02Focus)
+	focus := c02Focus
+	if sc.Class == "halt-no-idle" {
+		// an idle cycle where none is documented is extra time spent on the HALT
+		focus = map[string]bool{"cycles": true, "stuck": true, "halted": true}
+	}
+	res := executeCPU("C02", sc, focus)
 	return res
 }
